@@ -48,8 +48,8 @@ impl Check for C12 {
     }
     fn runs(&self, tier: Tier) -> u64 {
         match tier {
-            Tier::Quick => 40_000,
-            Tier::Thorough => 3_000_000,
+            Tier::Quick => 1_000_000,
+            Tier::Thorough => 40_000_000,
         }
     }
     fn run(&self, tape: &mut Tape, ctx: &RunCtx) -> RunOut {
